@@ -17,6 +17,12 @@ ASSUMPTIONS = ['CPython csv module: read(write(rows)) = rows for cells without C
 SAFE = 'ABCDEFGHIJKLMNOPQRSTUVWXYZabcdefghijklmnopqrstuvwxyz0123456789 ,"\'\\/-.;:#@()'
 
 
+THREADS = True
+
+
+def thread_ok(case):
+    return case['via'] == 'func'
+
 def columns():
     from cardutil.config import config
     pk = config['bit_config']
